@@ -357,10 +357,31 @@ theorem C10_latest_across_is_max (stacks : List (List Str))
   | some o =>
     obtain ⟨i, v, lv⟩ := o
     obtain ⟨hv, _, hmem, hall⟩ := hinv
-    refine ⟨i, v, by simp only [latestAcross, hgo], hmem, ?_⟩
+    refine ⟨i, v, by simp only [latestAcross, latestAcrossMin, hgo], hmem, ?_⟩
     intro w hw
     obtain ⟨lw, h1, _, h3⟩ := hall w hw
     exact ⟨cmpSort lw lv, by simp [stdCompare, h1, hv, cmpLexed], h3⟩
+
+/-- … and through the database branch (`readCache=False`, what `setup` uses; stacks without a cache),
+where every stack's products arrive sorted by their version *strings*: still a maximum of the declared
+versions in the version order. -/
+theorem C10_latest_db_is_max (stacks : List (List Str))
+    (hconv : ∀ st ∈ stacks, ∀ v ∈ st, convName v = true) (hne : stacks.flatten ≠ []) :
+    ∃ i v, latestAcross (stacks.map dbOrder) = .ok (some (i, v)) ∧ v ∈ stacks.flatten ∧
+      ∀ w ∈ stacks.flatten, ∃ r, stdCompare false w v = .ok r ∧ r ≤ 0 := by
+  have hconv' : ∀ st ∈ stacks.map dbOrder, ∀ v ∈ st, convName v = true := by
+    intro st hst v hv
+    obtain ⟨st0, h0, rfl⟩ := List.mem_map.mp hst
+    exact hconv st0 h0 v ((mem_dbOrder v st0).mp hv)
+  have hne' : (stacks.map dbOrder).flatten ≠ [] := by
+    intro e
+    cases h : stacks.flatten with
+    | nil => exact hne h
+    | cons a as =>
+      have : a ∈ (stacks.map dbOrder).flatten := (mem_flatten_dbOrder a stacks).mpr (by rw [h]; simp)
+      rw [e] at this; simp at this
+  obtain ⟨i, v, h1, h2, h3⟩ := C10_latest_across_is_max (stacks.map dbOrder) hconv' hne'
+  exact ⟨i, v, h1, (mem_flatten_dbOrder v stacks).mp h2, fun w hw => h3 w ((mem_flatten_dbOrder w stacks).mpr hw)⟩
 
 /-! non-vacuity: a chain, its rendering, the loop's answer; a list and its latest member -/
 example : render (opGe, n_1d2) [(opLt, n_1d10)] = [62, 61, 32, 49, 46, 50, 32, 124, 124, 32, 60, 32, 49, 46, 49, 48] := by decide
@@ -370,6 +391,8 @@ example : versionMatch n_1d9 (render (opGe, n_1d10) [(opLe, n_1d9)]) = .ok true 
 example : versionMatch n_v1 (render (opGe, n_w1) []) = .ok false := by decide     -- unsortable: no match
 example : latest [n_1d9, n_1d10, n_1d2, n_1d10] = .ok (some 1) := by decide
 example : latestAcross [[n_1d9, n_1d2], [], [n_1d10, n_1d2d0]] = .ok (some (2, n_1d10)) := by decide
+-- as strings `1.9` is the last of the stack; as versions `1.10` is
+example : dbOrder [n_1d9, n_1d10, n_1d2] = [n_1d10, n_1d2, n_1d9] ∧ latestAcross ([[n_1d9, n_1d10, n_1d2]].map dbOrder) = .ok (some (0, n_1d10)) := by decide
 
 /-! ## witnesses -/
 
